@@ -122,3 +122,103 @@ Proof.
     rewrite Hflip in Ez. cbn in Ez. inversion Ez; subst z. cbn in Hh. discriminate.
 Qed.
 
+(* ------------------------------------------------------------------------------------ *)
+(* D8: outside guard_d8 the faithful model contradicts POSIX (witness replayed on dateutil
+   and glibc in notes/posix.md): 'EST5EDT4,M3.2.0/2,M11.1.0/0:30' at 2021-11-03T12:00:00Z *)
+
+Definition d8_rule : posix :=
+  mkPosix [69; 83; 84] (-18000)
+    (Some (mkDst [69; 68; 84] (-14400) (mkPrule (DM 3 2 0) 7200) (mkPrule (DM 11 1 0) 1800))).
+Definition d8_instant : Z := 63771624000.
+
+Lemma tzstr_posix_d8_refuted_lemma :
+  exists r u z o,
+    wf_posix r = true /\ guard_apart r = true /\ guard_d8 r = false /\
+    tzstr_init (render_posix r) false = Ok z /\ observe_utc z u = Ok o /\
+    o.(o_off) <> fst (fst (posix_observe r u)).
+Proof.
+  exists d8_rule, d8_instant. eexists. eexists.
+  split; [vm_compute; reflexivity|].
+  split; [vm_compute; reflexivity|].
+  split; [vm_compute; reflexivity|].
+  split; [vm_compute; reflexivity|].
+  split; [vm_compute; reflexivity|].
+  vm_compute. discriminate.
+Qed.
+
+(* non-vacuity of the guard, and the chain string -> parse -> zone on a concrete rule *)
+Definition ex_rule : posix :=
+  mkPosix [69; 83; 84] (-18000)
+    (Some (mkDst [69; 68; 84] (-14400) (mkPrule (DM 3 2 0) 7200) (mkPrule (DM 11 1 0) 7200))).
+Definition ex_rule_south : posix :=
+  mkPosix [65; 69; 83; 84] 36000
+    (Some (mkDst [65; 69; 68; 84] 39600 (mkPrule (DM 10 1 0) 7200) (mkPrule (DJ 91) 10800))).
+
+Example guard_ex : guard ex_rule = true /\ guard ex_rule_south = true.
+Proof. split; vm_compute; reflexivity. Qed.
+
+Example parse_render_ex :
+  tzparse (render_posix ex_rule) = Ok (Some (ast_of_posix ex_rule)) /\
+  tzparse (render_posix ex_rule_south) = Ok (Some (ast_of_posix ex_rule_south)).
+Proof. split; vm_compute; reflexivity. Qed.
+
+(* ------------------------------------------------------------------------------------ *)
+(* GMT+h / UTC+h: h hours AHEAD of UTC unless POSIX interpretation is requested          *)
+
+Fixpoint zrange (k : nat) (lo : Z) : list Z :=
+  match k with O => [] | S k' => lo :: zrange k' (lo + 1) end.
+
+Lemma zrange_in k : forall lo h, lo <= h < lo + Z.of_nat k -> In h (zrange k lo).
+Proof.
+  induction k as [|k IH]; intros lo h Hh; [lia|].
+  cbn [zrange]. destruct (Z.eq_dec h lo) as [->|N]; [left; reflexivity|].
+  right. apply IH. lia.
+Qed.
+
+(* name ++ sign ++ decimal hour *)
+Definition gmt_string (name : list Z) (sign : Z) (h : Z) : list Z := name ++ [sign] ++ dec h.
+
+Definition fixed_zone_is (z : res zone) (name : list Z) (off : Z) : bool :=
+  match z with
+  | Ok z => list_eqb (match z.(z_std_abbr) with Some n => n | None => [] end) name &&
+            (z.(z_std_off) =? off) && negb z.(z_hasdst)
+  | Err _ => false
+  end.
+
+Definition gmt_check (h : Z) : bool :=
+  forallb (fun name =>
+    fixed_zone_is (tzstr_init (gmt_string name 43 h) false) name (h * 3600) &&
+    fixed_zone_is (tzstr_init (gmt_string name 45 h) false) name (- h * 3600) &&
+    fixed_zone_is (tzstr_init (gmt_string name 43 h) true) name (- h * 3600) &&
+    fixed_zone_is (tzstr_init (gmt_string name 45 h) true) name (h * 3600)) [GMT; UTC].
+
+Lemma gmt_plus_h_lemma h : 0 <= h < 100 -> gmt_check h = true.
+Proof.
+  intros Hh.
+  assert (A : forallb gmt_check (zrange 100 0) = true) by (vm_compute; reflexivity).
+  rewrite forallb_forall in A. apply A. apply zrange_in. lia.
+Qed.
+
+(* ------------------------------------------------------------------------------------ *)
+(* negative saving (daylight offset smaller than the standard offset), outside guard_apart:
+   the faithful model contradicts POSIX.  'IST-1GMT0,M10.5.0/2,M3.5.0/1' at
+   2021-10-31T01:30:00Z: model/dateutil +01:00 IST on wall 01:30, POSIX and glibc +00:00 GMT *)
+Definition negdst_rule : posix :=
+  mkPosix [73; 83; 84] 3600
+    (Some (mkDst [71; 77; 84] 0 (mkPrule (DM 10 5 0) 7200) (mkPrule (DM 3 5 0) 3600))).
+Definition negdst_instant : Z := 63771327000.
+
+Lemma tzstr_posix_negative_dst_refuted_lemma :
+  exists r u z o,
+    wf_posix r = true /\ guard_d8 r = true /\ guard_apart r = false /\
+    tzstr_init (render_posix r) false = Ok z /\ observe_utc z u = Ok o /\
+    o.(o_off) <> fst (fst (posix_observe r u)) /\ o.(o_wall) - o.(o_off) <> u.
+Proof.
+  exists negdst_rule, negdst_instant. eexists. eexists.
+  split; [vm_compute; reflexivity|].
+  split; [vm_compute; reflexivity|].
+  split; [vm_compute; reflexivity|].
+  split; [vm_compute; reflexivity|].
+  split; [vm_compute; reflexivity|].
+  split; vm_compute; discriminate.
+Qed.
